@@ -1,11 +1,12 @@
-(* statement pins and axiom audit for C08 (compiled on every check) *)
+(* statement pins and axiom audit for C08 (compiled on every check; regenerate BY HAND with driver/mkpins.py) *)
 From ChiaV.Base Require Import Bytes.
 From ChiaV.Clvm Require Import Sexp Ints.
 From ChiaV.Bundle Require Import SolutionGen SexpProofs SolutionGenProofs.
 Open Scope N_scope.
 From ChiaV.Props Require Import C08.
 Check C08_roundtrip :
-  forall (t : sexp) (b rest : bytes), ser t = Some b -> deser (b ++ rest) = Some (t, rest).
+  forall (t : sexp) (b rest : bytes),
+  ser t = Some b -> deser (b ++ rest) = Some (t, rest).
 Print Assumptions C08_roundtrip.
 Check C08_node_from_bytes_ser :
   forall (t : sexp) (b : bytes), ser t = Some b -> node_from_bytes b = Some t.
